@@ -193,7 +193,7 @@ array_t* get_dir (char *path, int flags) {
   for (de = readdir (dirp); de; de = readdir (dirp))
     {
       namelen = strlen (de->d_name);
-      if (!do_match && (strcmp (de->d_name, ".") == 0 ||
+      if ((strcmp (de->d_name, ".") == 0 ||	/* never listed, pattern or not: ".." is the parent directory */
                         strcmp (de->d_name, "..") == 0))
         continue;
       if (do_match && !match_string (regexppath, de->d_name))
@@ -206,7 +206,7 @@ array_t* get_dir (char *path, int flags) {
   do
     {
       namelen = strlen (findFileData.cFileName);
-      if (!do_match && (strcmp (findFileData.cFileName, ".") == 0 ||
+      if ((strcmp (findFileData.cFileName, ".") == 0 ||
                         strcmp (findFileData.cFileName, "..") == 0))
         continue;
       if (do_match && !match_string (regexppath, findFileData.cFileName))
@@ -245,7 +245,7 @@ array_t* get_dir (char *path, int flags) {
   for (i = 0, de = readdir (dirp); i < count; de = readdir (dirp))
     {
       namelen = strlen (de->d_name);
-      if (!do_match && (strcmp (de->d_name, ".") == 0 ||
+      if ((strcmp (de->d_name, ".") == 0 ||	/* never listed, pattern or not: ".." is the parent directory */
                         strcmp (de->d_name, "..") == 0))
         continue;
       if (do_match && !match_string (regexppath, de->d_name))
@@ -270,7 +270,7 @@ array_t* get_dir (char *path, int flags) {
       for (i = 0; i < count; )
         {
           namelen = strlen (findFileData.cFileName);
-          if (!do_match && (strcmp (findFileData.cFileName, ".") == 0 ||
+          if ((strcmp (findFileData.cFileName, ".") == 0 ||
                             strcmp (findFileData.cFileName, "..") == 0))
             {
               if (FindNextFile(dirp, &findFileData) == 0)
